@@ -30,7 +30,7 @@ GROUPS = {'ts1': ['g'], 'ts0': [], 'ts2': ['g', 'h']}
 
 
 def floors(tier):
-    return {'windows_checked': 1200, 'len:time_ops': 9, 'len:models': 3, 'rejections_checked': 100, 'limit_after_join_checked': 100, 'branch_plans_over_ten_steps': 100}
+    return {'windows_checked': 1200, 'len:time_ops': 9, 'len:models': 3, 'rejections_checked': 100, 'limit_after_join_checked': 100, 'branch_plans_over_ten_steps': 100, 'subselect_side_checked': 60}
 
 
 def ceilings(tier):
@@ -264,6 +264,49 @@ def run_branches(ctx, i, r):
         acc.fail(dict(sig, branches=len(parts)), det)
 
 
+def run_subselect_side(ctx, i, r):
+    """The data side written as a sub-select (`FROM (SELECT * FROM tbl WHERE .. LIMIT k) AS t JOIN model`): the planner moves the
+    sub-select's conditions and row limit up and plans the join like the flat spelling with both sets of conditions and the
+    SMALLER of the two limits.  Judged against the plan of that flat spelling (which the other classes judge on rows)."""
+    from mindsdb_sql import parse_sql
+    from mindsdb_sql.planner import plan_query
+    from mindsdb_sql.exceptions import PlanningException
+    acc = ctx.acc
+    model = r.choice(['ts0', 'ts1', 'ts2'])
+    inner = r.choice(['', '', 'ts > 4', 'g = 1', 'ts >= 2 AND g = 2', 'ts BETWEEN 3 AND 6', '5 < ts', 'g = 2 AND ts <= 5', 'ts = 4'])
+    outer = r.choice(['', '', 't.ts > LATEST', 'm.ts = LATEST']) if 'ts' not in inner.replace('ts0', '') else ''
+    if model == 'ts0':
+        inner = ' AND '.join(c for c in inner.split(' AND ') if not c.startswith('g ')) if inner else inner
+    # limits that order differently as numbers and as text (10 / 3, 25 / 4, 8 / 20), equal ones, only one of the two
+    k, lim = r.choice([(None, None), (3, None), (None, 3), (10, 3), (3, 10), (25, 4), (8, 20), (20, 8), (5, 5), (100, 9), (9, 100), (1, 10)])
+    a = f"SELECT * FROM (SELECT * FROM int1.series{' WHERE ' + inner if inner else ''}{' LIMIT %d' % k if k else ''}) AS t JOIN mindsdb.{model} AS m{' WHERE ' + outer if outer else ''}{' LIMIT %d' % lim if lim else ''}"
+    conds = []
+    for c in (inner.split(' AND ') if inner else []):
+        c = c.strip()
+        conds.append(c.replace('ts', 't.ts') if c[0].isdigit() else 't.' + c)
+    if outer:
+        conds.append(outer)
+    L = min([x for x in (k, lim) if x], default=None)
+    b = f"SELECT * FROM int1.series AS t JOIN mindsdb.{model} AS m{' WHERE ' + ' AND '.join(conds) if conds else ''}{' LIMIT %d' % L if L else ''}"
+    kw, desc = fedgen.catalog(r, form=[0, 1, 3, 5][i % 4])
+    acc.ev()
+    out = []
+    for text in (a, b):
+        try:
+            out.append(('plan', __import__('re').sub(r' AS t\b', '', str(plan_query(parse_sql(text, 'mindsdb'), **kw).steps))))
+        except (PlanningException, NotImplementedError) as e:
+            out.append(('rejected', type(e).__name__))
+        except Exception as e:
+            out.append(('raised', type(e).__name__ + ': ' + str(e)[:120]))
+    acc.count('subselect_side_checked')
+    if out[0][0] == 'plan' and out[1][0] == 'plan':
+        acc.key('subselect-side', model, inner, outer, k, lim)
+    if out[0] != out[1]:
+        acc.fail({'part': 'subselect-data-side-planned-unlike-flat-spelling', 'limits': 'both' if k and lim else 'inner' if k else 'outer' if lim else 'none',
+                  'outcome': out[0][0] + '/' + out[1][0]},
+                 {'text': a, 'flat': b, 'plan': out[0][1][:1500], 'flat_plan': out[1][1][:1500], 'catalog': desc})
+
+
 def run_shard(ctx):
     from mindsdb_sql import parse_sql
     from mindsdb_sql.planner import plan_query
@@ -279,6 +322,9 @@ def run_shard(ctx):
         r = core.rng_for(ctx.seed, 'C15', i)
         if i % 8 == 5:
             run_branches(ctx, i, r)
+            continue
+        if i % 16 == 3:
+            run_subselect_side(ctx, i, r)
             continue
         text, info = fedgen.ts_join(r)
         kw, desc = fedgen.catalog(r, form=[0, 1, 3, 5][i % 4])
